@@ -123,7 +123,8 @@ fn check_count(sv: &SerializedValues, what: &str, ctx: &mut Ctx) -> usize {
 }
 
 /// one `add_value` with the before/after oracle; returns the canonical op result
-fn add_checked(e: &Entry, v: u32, ct: &ColumnType<'static>, sv: &mut SerializedValues, ctx: &mut Ctx) -> Result<(), SerializationError> {
+fn add_checked(e: &Entry, v: u32, ty: &Ty, sv: &mut SerializedValues, ctx: &mut Ctx) -> Result<(), SerializationError> {
+    let ct = &to_column_type(ty);
     let before = sv.clone();
     let bytes_before = sv_bytes(sv);
     let res = (e.add.expect("serializable carrier"))(v, ct, sv);
@@ -147,6 +148,31 @@ fn add_checked(e: &Entry, v: u32, ct: &ColumnType<'static>, sv: &mut SerializedV
         }
     }
     check_count(sv, "after add_value", ctx);
+    // dynamic values: the rejection rules written from the documentation (dynfits.rs), independent of the model
+    if let Some(dv) = e.dynval {
+        let value = dv(v);
+        let fits = dyn_fits(&value, ty);
+        match &res {
+            Ok(()) if !fits => ctx.fail(format!(
+                "dyn-mismatch-accepted: a CqlValue that does not fit the column type was serialized (unknown UDT field / over-long tuple / wrong vector length / element of another type): {:?}",
+                value
+            )),
+            Err(err) if fits => {
+                let s = ser_err_str(err);
+                if !(s.ends_with("SizeOverflow") || s.ends_with("TooManyElements") || s.ends_with("TooManyValues")) {
+                    ctx.fail(format!("dyn-fitting-rejected: a CqlValue that fits the column type was refused: {}", s));
+                }
+            }
+            Err(err) => {
+                // a misfit is a type / shape error of the value: never reported as a size problem
+                let s = ser_err_str(err);
+                if s.ends_with("SizeOverflow") || s.ends_with("TooManyElements") {
+                    ctx.fail(format!("dyn-misfit-reported-as-size: {}", s));
+                }
+            }
+            _ => {}
+        }
+    }
     res
 }
 
@@ -246,7 +272,7 @@ fn roundtrip_tag(ty: &Ty, shape: &str) -> &'static str {
 fn run_ser(e: &Entry, v: u32, ty: &Ty, ctx: &mut Ctx) -> String {
     let ct = to_column_type(ty);
     let mut sv = SerializedValues::new();
-    let res = add_checked(e, v, &ct, &mut sv, ctx);
+    let res = add_checked(e, v, ty, &mut sv, ctx);
     let full = v == 0 || v == 3;
     // documentation oracle (serialization side)
     if full {
@@ -367,8 +393,7 @@ fn run_row(body: &str, ctx: &mut Ctx) -> String {
                 if e.add.is_none() {
                     return "bad-case".to_owned();
                 }
-                let ct = to_column_type(&ty);
-                match add_checked(e, v, &ct, &mut sv, ctx) {
+                match add_checked(e, v, &ty, &mut sv, ctx) {
                     Ok(()) => outs.push(format!("ok:{}:{}", sv.element_count(), sv.buffer_size())),
                     Err(err) => {
                         let s = ser_err_str(&err);
